@@ -15,7 +15,7 @@ class Divergence(Exception):
 
 
 def bfs(make_world, alphabet, depth, allow=None, max_transitions=None,
-        sample_every=997, label=None, time_cap=None):
+        sample_every=997, label=None, time_cap=None, first=None):
     """Explore all histories over ``alphabet`` up to ``depth``.
 
     make_world() -> World with .apply(op) -> (observation, problems),
@@ -39,6 +39,8 @@ def bfs(make_world, alphabet, depth, allow=None, max_transitions=None,
         nxt = []
         for hist in frontier:
             for op in alphabet:
+                if first is not None and not hist and op not in first:
+                    continue   # this unit owns a slice of the first level
                 if allow is not None and not allow(hist, op):
                     continue
                 if max_transitions and part['transitions'] >= max_transitions:
